@@ -23,6 +23,7 @@
 // faults, or leaves a shape caching a pointer to a block the history itself deleted, the defect is not
 // one of copying: the history is rejected / cut at that point and counted, never reported.
 #include "snapshot.hpp"
+#include "nifparse.hpp"
 
 using namespace nifly;
 using vf::J;
@@ -454,6 +455,28 @@ int main(int argc, char** argv) {
 	std::vector<Model> samples = snap::sample_models(A.repo, &nfiles);
 	if (samples.size() < 2) vf::fatal("no sample files under " + A.repo + "/tests");
 	std::vector<Model> api = snap::api_models();
+	// models with opaque blocks: a sample file in which one block type that refers to other blocks is relabelled (in the
+	// header type table, by the independent codec) to a name the library does not know.  The copy must stay as careful
+	// with them as the source (no pruning, no reordering, no string rebuild under an opaque block).
+	{
+		int made = 0;
+		for (auto& m : samples) {
+			if (made >= 3) break;
+			np::Header h = np::parse(m.bytes);
+			if (!h.ok || !h.has_sizes || h.blocks_end + 8 != m.bytes.size()) continue;
+			for (size_t t = 0; t < h.types.size(); t++) {
+				if (h.types[t] != "BSLightingShaderProperty" && h.types[t] != "BSShaderPPLightingProperty" && h.types[t] != "NiTexturingProperty") continue;
+				np::Header h2 = h;
+				h2.types[t] = "Vf" + h.types[t];
+				Model u;
+				u.name = "unknown:" + h.types[t] + ":" + m.name;
+				u.bytes = np::emit_header(h2) + m.bytes.substr(h.hdr_end);
+				NifFile probe;
+				if (s1::load(probe, u.bytes) == 0 && probe.HasUnknown()) { api.push_back(u); made++; }
+				break;
+			}
+		}
+	}
 	g_all = samples;
 	for (auto& m : api) g_all.push_back(m);
 	g_other_a = &g_all[0];
